@@ -21,6 +21,14 @@ import runner, gen, families  # noqa: E402
 WORK = os.path.join(ROOT, ".work")
 COQ = os.path.join(ROOT, "coq")
 REPO = runner.REPO
+# sections of GeneratedTables.v whose pin lemmas (proofs/TablesProof.v) a property file exports
+T1_SECTIONS = {
+    "C03": ["expected_check"],
+    "C07": ["bit_mask"],
+    "C08": ["precedence", "is_binary_op", "binop_of_token", "unop_of_token", "func_table", "binop_eval", "unop_eval"],
+    "C09": ["regexes", "header_regexes", "keywords", "punct"],
+    "C20": ["regexes", "header_regexes", "keywords", "punct"],
+}
 ALLOWED_AXIOMS = set()   # target: every property theorem closed under the global context
 
 
@@ -248,11 +256,27 @@ def run_check(prop, tier, seed):
     for kf in known_findings(prop):
         print("KNOWN-FINDING: property=%s %s" % (prop, kf.get("what", "")))
 
-    # 1. tables
+    # 1. tables (T1).  Each property uses the pins of certain sections only (T1_SECTIONS).  A section that the
+    # translator cannot read any more (a rewrite into a form it does not know) falls back to its reference text:
+    # the pin then says nothing about the current source, and the behavioural correspondence - escalated to the
+    # thorough case counts - carries the tie of that section alone, as it does for all hand-modelled code.
     ok, out = step_tables()
-    if not ok:
+    t1_status = {}
+    try:
+        t1_status = json.load(open(os.path.join(WORK, "t1_status.json")))
+    except (OSError, ValueError):
+        pass
+    t1_used = T1_SECTIONS.get(prop, [])
+    t1_fallback = [s_ for s_ in t1_used if t1_status.get(s_, "translated") != "translated"]
+    cov["t1_sections"] = {s_: t1_status.get(s_, "unknown") for s_ in t1_used}
+    case_tier = tier
+    if not ok and (t1_used or prop in ("C09", "C20")):
         p = write_replay(prop, seed, 0, None, {"broken": "translator tools/gen_tables.py failed", "log": out[-2000:]})
         violations.append((p, False))
+    elif t1_fallback:
+        case_tier = "thorough"
+        for s_ in t1_fallback:
+            print("T1-FALLBACK: property=%s section %s: %s; correspondence escalated to the thorough case counts" % (prop, s_, t1_status[s_]))
 
     # 2. proofs
     ok, log = step_coq(prop)
@@ -343,7 +367,7 @@ def run_check(prop, tier, seed):
     mismatches = []
     oracle_fail = []
     if harness_ok and os.path.exists(runner.model_bin()):
-        cases = families.corpus_cases(prop) + cfg["cases"](seed, tier)
+        cases = families.corpus_cases(prop) + cfg["cases"](seed, case_tier)
         batches = [("debug", cases)]
         if rel_ok:
             batches.append(("release", cases))
